@@ -26,7 +26,11 @@ func pending(c *core.Ctx, op string, fields ...string) {
 		return
 	}
 	c.W.Flush()
-	os.WriteFile(pendingFile, []byte(op+"\t"+strings.Join(fields, "\t")+"\n"), 0644)
+	head := ""
+	if replayLine >= 0 {
+		head = fmt.Sprintf("#%d\n", replayLine)
+	}
+	os.WriteFile(pendingFile, []byte(head+op+"\t"+strings.Join(fields, "\t")+"\n"), 0644)
 }
 
 // done: the call came back.
@@ -36,7 +40,14 @@ func done() {
 	}
 }
 
+// replayLine is the index of the request being replayed (child, replay mode), written in front of the
+// pending line so that the parent can restart behind it.
+var replayLine = -1
+
 // runInChild re-executes the harness; true when this process is the parent (and the work is done).
+// After a death inside a call of the code under test the pending case is emitted and the child is started
+// again (at most maxRestarts times): in replay mode behind the request that killed it (C07_SKIP), otherwise
+// with another seed (the cases before the death would only be repeated).
 func runInChild(c *core.Ctx) bool {
 	if os.Getenv("C07_CHILD") != "" {
 		return false
@@ -47,22 +58,40 @@ func runInChild(c *core.Ctx) bool {
 	}
 	f.Close()
 	defer os.Remove(f.Name())
-	cmd := exec.Command(os.Args[0], os.Args[1:]...)
-	cmd.Env = append(os.Environ(), "C07_CHILD=1", "C07_PENDING="+f.Name())
-	cmd.Stdout = c.W
-	cmd.Stderr = os.Stderr
-	err = cmd.Run()
-	if err == nil {
-		return true
+	const maxRestarts = 8
+	skip := 0
+	for attempt := 0; ; attempt++ {
+		args := append([]string{}, os.Args[1:]...)
+		if attempt > 0 && c.Arg == "" {
+			args = append(args, "-seed", fmt.Sprint(c.Seed+int64(attempt)*7919))
+		}
+		os.WriteFile(f.Name(), nil, 0644)
+		cmd := exec.Command(os.Args[0], args...)
+		cmd.Env = append(os.Environ(), "C07_CHILD=1", "C07_PENDING="+f.Name(), fmt.Sprintf("C07_SKIP=%d", skip))
+		cmd.Stdout = c.W
+		cmd.Stderr = os.Stderr
+		err = cmd.Run()
+		if err == nil {
+			return true
+		}
+		data, _ := os.ReadFile(f.Name())
+		line := string(data)
+		if len(line) == 0 {
+			// not inside a call of the code under test: a harness problem, reported as such
+			fmt.Fprintf(os.Stderr, "C07 child: %v\n", err)
+			c.W.Flush()
+			os.Exit(1)
+		}
+		if strings.HasPrefix(line, "#") { // "#<index of the replayed request>\n" in front
+			i := strings.Index(line, "\n")
+			fmt.Sscanf(line[1:i], "%d", &skip)
+			skip++
+			line = line[i+1:]
+		}
+		fmt.Fprintf(os.Stderr, "C07: the code under test ended the process (%v); reported as outcome exit:killed\n", err)
+		c.W.WriteString(line)
+		if attempt >= maxRestarts {
+			return true
+		}
 	}
-	line, _ := os.ReadFile(f.Name())
-	if len(line) == 0 {
-		// not inside a call of the code under test: a harness problem, reported as such
-		fmt.Fprintf(os.Stderr, "C07 child: %v\n", err)
-		c.W.Flush()
-		os.Exit(1)
-	}
-	fmt.Fprintf(os.Stderr, "C07: the code under test ended the process (%v); reported as outcome exit:killed\n", err)
-	c.W.Write(line)
-	return true
 }
